@@ -185,7 +185,16 @@ impl GenerationPass for AvailableValuePass {
                 let mut out_memory_n = if node.is_any_entry() {
                     AvailableValueMap::new()
                 } else {
-                    let mut map = node.memory_values_in();
+                    // A fact "this location holds the current value of register r" is only
+                    // valid until r is overwritten (it is resolved against r's value later on)
+                    let overwritten = out_reg_overwritten(&node);
+                    let mut map: AvailableValueMap<MemoryLocation> = node
+                        .memory_values_in()
+                        .into_iter()
+                        .filter(|(_, value)| {
+                            !matches!(value, AvailableValue::RegisterWithScalar(reg, _) if overwritten.contains(reg))
+                        })
+                        .collect();
                     if let Some((MemoryLocation::StackOffset(offset), value)) =
                         node.gen_memory_value()
                     {
@@ -240,6 +249,21 @@ impl GenerationPass for AvailableValuePass {
 /// replace it with a constant zero. This is because constants are easier
 /// to deal with than registers and the analysis has no idea how to deal
 /// with the zero register.
+/// Registers whose value is replaced by this node.
+fn out_reg_overwritten(node: &crate::cfg::CfgNode) -> crate::cfg::RegisterSet {
+    let mut overwritten = node.kill_reg();
+    if node.calls_to().is_some() {
+        overwritten |= Register::return_addr_set();
+    }
+    if node.is_ecall() {
+        overwritten |= node.known_ecall_signature().map_or_else(
+            || [Register::X10, Register::X11].into_iter().collect(),
+            |(_, outs)| outs,
+        );
+    }
+    overwritten
+}
+
 fn rule_zero_to_const(
     available_out: &mut AvailableValueMap<Register>,
     available_in: &AvailableValueMap<Register>,
